@@ -319,21 +319,21 @@ func (t *NativeArrayTuple[T]) ConcatVal(other Value) (Value, Value) {
 			newList = append(newList, *o...)
 			return Ref(&newList), Undefined
 		case ArrayList:
-			newList := make(ArrayListOfValue, len(*t), len(*t)+o.Length())
+			newList := make(ArrayListOfValue, len(*t)+o.Length())
 			for i, element := range *t {
 				newList[i] = element.ToValue()
 			}
 			for i, element := range o.Elements() {
-				newList[i+o.Length()] = element
+				newList[len(*t)+i] = element
 			}
 			return Ref(&newList), Undefined
 		case ArrayTuple:
-			newList := make(ArrayTupleOfValue, len(*t), len(*t)+o.Length())
+			newList := make(ArrayTupleOfValue, len(*t)+o.Length())
 			for i, element := range *t {
 				newList[i] = element.ToValue()
 			}
 			for i, element := range o.Elements() {
-				newList[i+o.Length()] = element
+				newList[len(*t)+i] = element
 			}
 			return Ref(&newList), Undefined
 		}
@@ -375,6 +375,10 @@ func (t *NativeArrayTuple[T]) Repeat(other Value) (*NativeArrayTuple[T], Value) 
 				"arrayTuple repeat count is too large %s",
 				o.Inspect(),
 			))
+		}
+		if newLen == 0 {
+			// nothing to copy, do not spin `o` times
+			return &NativeArrayTuple[T]{}, Undefined
 		}
 		newArrayTuple := make(NativeArrayTuple[T], 0, newLen)
 		for i := 0; i < int(o); i++ {
@@ -491,7 +495,7 @@ func (t *NativeArrayTupleIterator[T]) NextValue() (Value, Value) {
 
 func (t *NativeArrayTupleIterator[T]) Elements() iter.Seq[Value] {
 	return func(yield func(Value) bool) {
-		for ; t.Index >= t.ArrayTuple.Length(); t.Index++ {
+		for ; t.Index < t.ArrayTuple.Length(); t.Index++ {
 			if !yield((*t.ArrayTuple)[t.Index].ToValue()) {
 				return
 			}
